@@ -11,8 +11,8 @@ use refmodel::RVal;
 use serde_json::json;
 use std::time::Duration;
 
-pub const OPS: [&str; 17] = [
-    "select_full_depth_path",
+pub const OPS: [&str; 18] = [
+    "select_full_depth_path", "array_set_functions_on_equal_deep_elements",
     "parse_value", "to_vec", "parse_jsonb", "from_slice", "to_string", "to_pretty_string", "compare_eq", "compare_ne", "get_by_path", "convert_to_comparable", "strip_nulls", "to_serde_json",
     "traverse_check_string", "contains", "delete_by_keypath", "type_and_accessors",
 ];
@@ -106,6 +106,18 @@ fn run_op(op: &str, shape: usize, n: usize) -> String {
                 res
             }
             "convert_to_comparable" => { let mut k = vec![]; jsonb::convert_to_comparable(&deep_jsonb(shape, n, 1), &mut k); "ok" }
+            "array_set_functions_on_equal_deep_elements" => {
+                // [X, X] with X nested n levels: the set functions compare the two elements
+                let x = deep_jsonb(shape, n, 1);
+                let mut doc = vec![];
+                if jsonb::build_array([&x[..], &x[..]], &mut doc).is_err() {
+                    "err"
+                } else {
+                    let (mut a, mut b, mut c) = (vec![], vec![], vec![]);
+                    let r = (jsonb::array_distinct(&doc, &mut a).is_ok(), jsonb::array_intersection(&doc, &doc, &mut b).is_ok(), jsonb::array_except(&doc, &x, &mut c).is_ok(), jsonb::array_overlap(&doc, &x).is_ok());
+                    if r == (true, true, true, true) { "ok" } else { "err" }
+                }
+            }
             "strip_nulls" => { let mut k = vec![]; match jsonb::strip_nulls(&deep_jsonb(shape, n, 0), &mut k) { Ok(_) => "ok", Err(_) => "err" } }
             "to_serde_json" => match jsonb::to_serde_json(&deep_jsonb(shape, n, 1)) { Ok(v) => { std::mem::forget(v); "ok" } Err(_) => "err" },
             "traverse_check_string" => { if jsonb::traverse_check_string(&deep_jsonb(shape, n, 1), |s| s == b"zz") { "err" } else { "ok" } }
